@@ -21,7 +21,7 @@ PROPERTY = "C08"
 LEVEL = "fault_enumeration"
 FANOUT_CHUNK = 1
 RULE = (
-    "workloads {W1 create catalog (W1p: with two workers, crash points in the writer process; W1b: patches of 19 kB written in 12 chunks of 1.6 kB), W2 overwrite a catalog of other data (W2p: with two workers; the value returned by the surviving parent must be the complete new catalog), W3 open a catalog without meta.yml (metadata "
+    "workloads {W1 create catalog (W1p: with two workers, crash points in the writer process; W1b: patches of 19 kB written in 12 chunks of 1.6 kB; W1P (thorough): the main process of a two-worker creation is killed at each of its own write calls and at every chunk request, its children are left alone for 2.5 s), W2 overwrite a catalog of other data (W2p: with two workers; the value returned by the surviving parent must be the complete new catalog), W3 open a catalog without meta.yml (metadata "
     "computed), W4 first build_trees, W5 rebuild for other edges of the same bin count (W5f: forced), W6 rebuild binned->unbinned, W7 "
     "CorrFunc.to_file over an older file, W8 CorrData.to_files over older files, W9 Configuration.to_file over an older "
     "file} x every crash point = entry of every mutating file-system call (mkdir, creating/truncating openat, write, "
@@ -40,7 +40,7 @@ ASSUMPTIONS = [
 ]
 
 QUICK = ("W1", "W2", "W5", "W5f", "W7", "W8", "W2p", "W1b")
-ALL = ("W1", "W2", "W3", "W4", "W5", "W5f", "W6", "W7", "W8", "W9", "W1p", "W2p", "W1b")
+ALL = ("W1", "W2", "W3", "W4", "W5", "W5f", "W6", "W7", "W8", "W9", "W1p", "W2p", "W1b", "W1P")
 
 
 def norm(text, base):
@@ -58,7 +58,10 @@ def cases(tier, seed):
         scratch = os.path.join(root, wl)
         os.makedirs(scratch, exist_ok=True)
         base = os.path.join(scratch, "base")
-        rel, ops = crashx.record(wl, base, scratch)
+        if wl == "W1P":  # the main process of a two-worker creation is killed, its children live on for a while
+            rel, ops = crashx.record_parent(wl, base, scratch)
+        else:
+            rel, ops = crashx.record(wl, base, scratch)
         return wl, base, os.path.join(scratch, "snap"), rel, ops
 
     out = []
@@ -179,7 +182,7 @@ def observe(wl, base):
             bad.append(("opens-with-incomplete-records",
                         f"Catalog(cache) opens with {len(recs)} patches / {n} records of the 1200 written in 12 chunks"))
         return bad
-    if wl in ("W1", "W1p", "W2", "W2p", "W3", "W4", "W5", "W5f", "W6"):
+    if wl in ("W1", "W1p", "W1P", "W2", "W2p", "W3", "W4", "W5", "W5f", "W6"):
         try:
             cat = Catalog(R)
             recs = records_of(cat)
@@ -275,10 +278,13 @@ def run_case(case):
     else:  # replay in another process: rebuild the prior state
         crashx.setup(wl, base)
     op = dict(name=case["name"], ordinal=case["ordinal"], proc=case.get("proc", 0))
-    res = crashx.inject(wl, base, case["rel_paths"], op, d)
+    if wl == "W1P":
+        res = crashx.inject_parent(wl, base, op, d)
+    else:
+        res = crashx.inject(wl, base, case["rel_paths"], op, d)
     def args_of(t):
         a = t.split(" = ")[0].split("(", 1)[-1].rstrip(") ")[:80]
-        if wl.endswith("p"):  # parallel creation: which patch the writer serves k-th is up to the real scheduler;
+        if wl.lower().endswith("p"):  # parallel creation: which patch the writer serves k-th is up to the real scheduler;
             a = ""  # the crash point "k-th mutating call of the writer process" is compared by call name only
         return a
 
